@@ -127,6 +127,9 @@ pub fn judge_session(rep: &LoopReport) -> Judged {
                         j.probes.add("go_on_position_lost_by_force", 1);
                     }
                 }
+                if legal > 128 {
+                    j.probes.add("go_on_position_with_more_than_128_legal_moves", 1);
+                }
                 if legal == 0 {
                     j.probes.add(if pos.in_check() { "go_on_mate_position" } else { "go_on_stalemate_position" }, 1);
                     if !x.output.iter().any(|l| l.trim() == "bestmove 0000") {
@@ -349,6 +352,12 @@ pub fn generate_and_run(seed: u64) -> (Scenario, LoopReport) {
                     let lost = if !g.explosive_game && g.rng.chance(1, 10) { gen::lost_by_force_position(&mut g.rng) } else { None };
                     let (root, pos) = if let Some(p) = lost {
                         g.lost_game = true;
+                        (format!("fen {}", crate::sworld::fen_for_search(&p)), p)
+                    } else if !g.explosive_game && g.rng.chance(1, 20) {
+                        // more than 128 legal moves (five to eight queens); treated like an
+                        // explosive game: clock-limited go's, a few plies
+                        g.explosive_game = true;
+                        let p = gen::many_queens_position(&mut g.rng);
                         (format!("fen {}", crate::sworld::fen_for_search(&p)), p)
                     } else if g.explosive_game {
                         let p = if g.rng.chance(1, 2) { Pos::from_fen(*g.rng.pick(gen::EXPLOSIVE_FENS)).unwrap() } else { gen::promotion_race(&mut g.rng) };
@@ -613,7 +622,7 @@ pub fn run(ctx: &Ctx) -> i32 {
     });
     let ev = Evidence {
         level: "exploration",
-        rule: "One sim = one engine process lifetime: a simulated GUI plays 1-4 games (startpos, playout FENs, constructed mate/stalemate/only-move/promotion positions, positions lost by force (every move allows mate in one), promotion races; isready/stop/setoption lines at seeded places; a third of the games without ucinewgame and revisiting earlier roots so that TT/killers/history are stale; one game in five takes up an earlier game of the same process again with the same start and moves), sending position+go per move and playing the engine's answer plus a seeded reply on the rules model. go parameters: depth 1..4, movetime 0/1/small/large, wtime/btime[/winc/binc] in four regimes (ample, near the 5 s reserve, below it, zero) in random token order. The clock's per-sim cost model (1us..5ms per node, optional per-read cost, stall jumps, forced expiry at reads 1..6 of seeded searches) decides where each budget expires. Oracle per go: exactly one bestmove, last line, legal per the rules model and never 0000 when a legal move exists (the token printed for a position without legal moves is not prescribed by the property and not judged), no crash. Evaluations = go commands judged; a case is distinct by (piece count, legal-move count, budget, expired?, go kind).".into(),
+        rule: "One sim = one engine process lifetime: a simulated GUI plays 1-4 games (startpos, playout FENs, constructed mate/stalemate/only-move/promotion positions, positions lost by force (every move allows mate in one), positions with more than 128 legal moves, promotion races; isready/stop/setoption lines at seeded places; a third of the games without ucinewgame and revisiting earlier roots so that TT/killers/history are stale; one game in five takes up an earlier game of the same process again with the same start and moves), sending position+go per move and playing the engine's answer plus a seeded reply on the rules model. go parameters: depth 1..4, movetime 0/1/small/large, wtime/btime[/winc/binc] in four regimes (ample, near the 5 s reserve, below it, zero) in random token order. The clock's per-sim cost model (1us..5ms per node, optional per-read cost, stall jumps, forced expiry at reads 1..6 of seeded searches) decides where each budget expires. Oracle per go: exactly one bestmove, last line, legal per the rules model and never 0000 when a legal move exists (the token printed for a position without legal moves is not prescribed by the property and not judged), no crash. Evaluations = go commands judged; a case is distinct by (piece count, legal-move count, budget, expired?, go kind).".into(),
         extra: serde_json::Map::new(),
         assumptions: vec![
             "a depth-limited go that hits the 3M-node step cap is inconclusive (counted), never a violation: C03 sets no time bound for go depth".into(),
